@@ -290,6 +290,32 @@ func ruleIndexResultChecked(c *core.Ctx, rule string, rels ...string) {
 	}
 }
 
+// runsAtInitOnly: fn is a package initialiser, or a function that is only
+// called (statically, its value never taken) from functions that run at
+// initialisation only.
+func runsAtInitOnly(c *core.Ctx, fn *ssa.Function, depth int) bool {
+	for fn.Parent() != nil {
+		fn = fn.Parent()
+	}
+	if fn.Name() == "init" || strings.HasPrefix(fn.Name(), "init#") {
+		return true
+	}
+	if depth > 4 || !isPrivateHelper(c, fn) {
+		return false
+	}
+	all, _ := c.CallSites()
+	sites := all[fn]
+	if len(sites) == 0 {
+		return false
+	}
+	for _, cs := range sites {
+		if !runsAtInitOnly(c, cs.Parent(), depth+1) {
+			return false
+		}
+	}
+	return true
+}
+
 // ruleSharedMapWritesExclusive: a map that is shared (a package-level variable,
 // or a field reached from a parameter or receiver) is not written while the
 // only lock held is a read lock: readers run concurrently, so two such writers
@@ -300,9 +326,6 @@ func ruleSharedMapWritesExclusive(c *core.Ctx, lc *core.LockCache, rule string, 
 	for _, rel := range withExamples(rels) {
 		for _, fn := range srcFuncsOfPkg(c, rel) {
 			lf := lc.Get(fn)
-			if lf.Ops == 0 {
-				continue
-			}
 			for _, b := range fn.Blocks {
 				for _, in := range b.Instrs {
 					var m ssa.Value
@@ -315,6 +338,28 @@ func ruleSharedMapWritesExclusive(c *core.Ctx, lc *core.LockCache, rule string, 
 						}
 					}
 					if m == nil {
+						continue
+					}
+					// a package-level map written at run time with no exclusive lock at all
+					if ld, ok := m.(*ssa.UnOp); ok && ld.Op == token.MUL {
+						if g, isG := ld.X.(*ssa.Global); isG && !runsAtInitOnly(c, fn, 0) {
+							excl := false
+							for class := range lf.MayHeld(in) {
+								if e, _ := lf.HeldAt(in, class, true); e {
+									excl = true
+								}
+							}
+							if !excl {
+								anyLock := len(lf.MayHeld(in)) > 0
+								if !anyLock {
+									n++
+									c.Fail(rule, fmt.Sprintf("unlocked-package-map@%s/%s", core.FuncKey(fn), g.Name()), in.Pos(), fmt.Sprintf("the package-level map %s is written at run time with no lock held: two goroutines decoding at the same time write it concurrently (fatal error: concurrent map writes aborts the process), and a table keyed by what the input says grows with every input", g.Name()))
+									continue
+								}
+							}
+						}
+					}
+					if lf.Ops == 0 {
 						continue
 					}
 					shared := false
